@@ -16,18 +16,20 @@ def make_copy(with_tests=False):
     if with_tests:
         shutil.copytree("/repo/tests", os.path.join(tmp, "tests"),
                         ignore=shutil.ignore_patterns("__pycache__"))
-        os.makedirs(os.path.join(tmp, "resources/models"))
-        shutil.copytree("/repo/resources/models/fama_test_suite",
-                        os.path.join(tmp, "resources/models/fama_test_suite"))
+        os.symlink("/repo/resources", os.path.join(tmp, "resources"))   # read-only use by tests/demos
     return tmp
 
 def run_checks(tmp, props, tier="quick"):
     out = {}
     env = dict(os.environ, VERIF_REPO=tmp, VERIF_EVIDENCE_DIR=os.path.join(tmp, "_ev"))
-    for p in props:
+    def one(p):
         r = subprocess.run(["/venv/bin/python", "-m", "sa", p, "--tier", tier], cwd="/verif",
                            env=env, capture_output=True, text=True)
-        out[p] = (r.returncode, r.stdout + r.stderr)
+        return p, (r.returncode, r.stdout + r.stderr)
+    import concurrent.futures as cf
+    with cf.ThreadPoolExecutor(min(16, max(1, len(props)))) as ex:
+        for p, res in ex.map(one, props):
+            out[p] = res
     return out
 
 def run_tests(tmp):
